@@ -62,10 +62,10 @@ def _same(arrs, copies):
 class DiffuseGeom(Stage):
     name = "RegionGeom.throw"
 
-    def __init__(self):
+    def __init__(self, variant=0):
         from .c02 import geom_cfg, make_geom
 
-        self.gc = geom_cfg(525.0, 0.2, 0.3, 7.0, 30.0, 360.0)
+        self.gc = geom_cfg(525.0, 0.2, 0.3, 7.0, 30.0, 360.0) if variant == 0 else geom_cfg(33.0, -0.7, 2.9, 2.0, 60.0, 90.0)
         self._make = make_geom
         # kept / not kept (downward, beta > 42) / face points
         self.ev = [(0.3, 0.5, 0.2, 0.6), (0.9, 0.02, 0.7, 0.05), (0.05, 0.9, 0.4, 0.95), (0.99, 0.5, 0.9, 0.3), (0.5, 0.25, 0.0, 1.0), (0.0, 0.0, 1.0, 0.0)]
@@ -96,6 +96,9 @@ class DiffuseGeom(Stage):
     def sig(self, i):
         return i
 
+    def bad(self, g):
+        g.throw(np.zeros((3, 5)))  # wrong shape: must be rejected
+
 
 class DiffuseGeomCall(DiffuseGeom):
     name = "RegionGeom.__call__(u)"
@@ -117,8 +120,8 @@ class DiffuseGeomCall(DiffuseGeom):
 class TargetGeom(Stage):
     name = "RegionGeomToO.throw(times)"
 
-    def __init__(self):
-        self.cfg = sim.make_config(mode="Target", n=10)
+    def __init__(self, variant=0):
+        self.cfg = sim.make_config(mode="Target", n=10) if variant == 0 else sim.make_config(mode="Target", n=10, altitude=33.0, det_lat=0.4, det_long=1.0, extra={"simulation": {"target": {"source_RA": 4.0, "source_DEC": 0.5}}})
         # fractions of the observation window; the default source is occulted for a few of them
         from nuspacesim.simulation.geometry.region_geometry import RegionGeomToO
 
@@ -162,14 +165,17 @@ class TargetGeom(Stage):
     def sig(self, i):
         return self.cls[i]
 
+    def bad(self, g):
+        g.throw(None)
+
 
 class SpectrumStage(Stage):
     name = "Spectra.__call__"
 
-    def __init__(self):
+    def __init__(self, variant=0):
         from nuspacesim.simulation.spectra.spectra import Spectra
 
-        self.cfg = sim.make_config(spectrum="power")
+        self.cfg = sim.make_config(spectrum="power") if variant == 0 else sim.make_config(spectrum="mono", logE=9.3)
         self.S = Spectra
         self.ev = [0.0, 5e-324, 0.25, 0.5, 1 - 2.0**-53, 0.9]
         self.k = len(self.ev)
@@ -188,7 +194,9 @@ class SpectrumStage(Stage):
 
 
 class TausStage(Stage):
-    def __init__(self, which, version="3"):
+    def __init__(self, which, version="3", variant=0):
+        if variant == 1:
+            version = "1" if version != "1" else "3"
         from nuspacesim.config import NssConfig, Simulation
         from nuspacesim.simulation.taus.taus import Taus
 
@@ -244,6 +252,16 @@ class TausStage(Stage):
         b = self.ev[i][0]
         return 0 if b < self.bax[0] else (2 if b > self.bax[-1] else 1)
 
+    def bad(self, t):
+        # an energy outside the table: must be rejected (and must leave the object usable)
+        if self.which == "tau_energy":
+            t.tau_energy(np.array([0.1, 0.2]), np.array([8.0, 12.5]), np.array([0.3, 0.6]))
+        elif self.which == "tau_exit_prob":
+            t.tau_exit_prob(np.array([0.1, 0.2]), np.array([8.0, 12.5]))
+        else:
+            with own.RngStub(fn=lambda i, n: np.full(n, 0.4)).installed():
+                t(np.array([0.1, 0.2]), np.array([5.0, 8.0]))
+
 
 class AltDecStage(Stage):
     name = "EAS.altDec"
@@ -273,11 +291,11 @@ class AltDecStage(Stage):
 class EASStage(Stage):
     name = "EAS.__call__ (real kernel)"
 
-    def __init__(self):
+    def __init__(self, variant=0):
         from nuspacesim.simulation.eas_optical.eas import EAS
 
         self.E = EAS
-        self.cfg = sim.make_config(cloud="map")
+        self.cfg = sim.make_config(cloud="map") if variant == 0 else sim.make_config(altitude=33.0, extra={"simulation": {"cloud_model": {"id": "pressure_map", "month": 1}}, "detector": {"optical": {"quantum_efficiency": 0.4, "photo_electron_threshold": 3.0}}})
         from nuspacesim.simulation.atmosphere.clouds import CloudTopHeight
 
         self.cloud = CloudTopHeight(self.cfg)
@@ -301,17 +319,24 @@ class EASStage(Stage):
         a = self.ev[i][1]
         return (0 <= a <= 20, i)
 
+    def bad(self, e):
+        import dask
+
+        with own.null_progress(), dask.config.set(scheduler="synchronous"), np.errstate(all="ignore"):
+            e(np.array([0.1, 0.2]), np.array([5.0]), np.array([1.0, 1.0]), np.zeros(2), np.zeros(2), cloudf=self.cloud)  # length mismatch
+
 
 class RadioStage(Stage):
     name = "EASRadio.__call__"
 
-    def __init__(self):
+    def __init__(self, variant=0):
         from nuspacesim.simulation.eas_radio.radio import EASRadio
 
         from .c20 import alt_of, len_for_alt
 
         self.Rd = EASRadio
-        self.cfg = sim.make_config(altitude=525.0)
+        self.band = (30.0, 300.0) if variant == 0 else (300.0, 1000.0)
+        self.cfg = sim.make_config(altitude=525.0) if variant == 0 else sim.make_config(altitude=33.0, extra={"detector": {"radio": {"low_frequency": 300.0, "high_frequency": 1000.0, "nantennas": 4}}})
         b = math.radians(5.0)
         ls = [0.0, len_for_alt(5.0, b), len_for_alt(10.0, b), len_for_alt(15.0, b), 3.0, len_for_alt(9.4, math.radians(1.0))]
         bs = [b, b, b, b, math.radians(40.0), math.radians(1.0)]
@@ -343,7 +368,7 @@ class RadioStage(Stage):
 
         ef_c = ef.copy()
         with np.errstate(all="ignore"):
-            snr = np.asarray(calculate_snr(ef, (30.0, 300.0), 525.0, 10, 1.8))
+            snr = np.asarray(calculate_snr(ef, self.band, 525.0, 10, 1.8))
         ok = _same(cols, cp) and ef.tobytes() == ef_c.tobytes()
         return [_b(ef[j], snr[j]) for j in range(len(idxs))], ok
 
@@ -355,6 +380,77 @@ class RadioStage(Stage):
 def stages(tier):
     out = [DiffuseGeom(), DiffuseGeomCall(), TargetGeom(), SpectrumStage(), TausStage("tau_energy"), TausStage("tau_exit_prob"), TausStage("__call__"), TausStage("tau_exit_prob", "1"), AltDecStage(), EASStage(), RadioStage()]
     return out
+
+
+def variant_pairs():
+    """(stage configured one way, the same stage configured another way): two live instances in one process"""
+    return [
+        (DiffuseGeom(0), DiffuseGeom(1)),
+        (TargetGeom(0), TargetGeom(1)),
+        (SpectrumStage(0), SpectrumStage(1)),
+        (TausStage("tau_energy", "3", 0), TausStage("tau_energy", "3", 1)),
+        (TausStage("tau_exit_prob", "3", 0), TausStage("tau_exit_prob", "3", 1)),
+        (TausStage("__call__", "1", 0), TausStage("__call__", "1", 1)),
+        (EASStage(0), EASStage(1)),
+        (RadioStage(0), RadioStage(1)),
+    ]
+
+
+def judge_after_error(st):
+    """a call that the stage must reject, then ordinary calls on the SAME object: results as on a fresh object"""
+    if not hasattr(st, "bad"):
+        return [], 0
+    base = [st.rows(st.make(), [i])[0][0] for i in range(st.k)]
+    out = []
+    n = 0
+    full = list(range(st.k))
+    for seq in (["bad", full], [full, "bad", full], ["bad", "bad", full[::-1]]):
+        obj = st.make()
+        for step in seq:
+            n += 1
+            if step == "bad":
+                try:
+                    st.bad(obj)
+                except Exception:
+                    pass
+                continue
+            try:
+                r, ok = st.rows(obj, step)
+            except Exception as ex:
+                out.append(("usable_after_rejected_call", "after_error", [str(x) for x in seq], f"{type(ex).__name__}: {str(ex)[:80]}"))
+                break
+            if any(r[pos] != base[i] for pos, i in enumerate(step)):
+                out.append(("event_result_independent_of_context", "after_error", [str(x) for x in seq], "differs after a rejected call"))
+                break
+    return out, n
+
+
+def judge_two_instances(sa, sb):
+    """two instances of one stage class with DIFFERENT configurations alive in one process, calls interleaved"""
+    out = []
+    n = 0
+    bases = []
+    for st in (sa, sb):
+        bases.append([st.rows(st.make(), [i])[0][0] for i in range(st.k)])
+    for order in ([0, 1, 0], [1, 0, 1, 0], [0, 0, 1], [1, 1, 0]):
+        objs = [None, None]
+        built = []
+        for which in order:
+            st = (sa, sb)[which]
+            if objs[which] is None:
+                objs[which] = st.make()
+                built.append(which)
+            full = list(range(st.k))
+            n += 1
+            try:
+                r, ok = st.rows(objs[which], full)
+            except Exception as ex:
+                out.append(("instances_with_different_configuration_are_independent", "two_instances", order, f"{type(ex).__name__}: {str(ex)[:80]}"))
+                break
+            if any(r[i] != bases[which][i] for i in full):
+                out.append(("instances_with_different_configuration_are_independent", "two_instances", order, f"instance {which} differs from the same instance alone in a fresh process"))
+                break
+    return out, n
 
 
 # ------------------------------------------------------------------------------------------------ generic contexts
@@ -501,6 +597,18 @@ def run(ctx):
                 continue
             seen.add((c, kind))
             ctx.violation(c, {"kind": "stage", "stage": st.name, "ctx_kind": kind, "batches": batches, "tier": tier}, "same bytes as the event alone on a fresh object" if c.startswith("event") else "holds", str(pos))
+    for st in stages(tier):
+        v, n = judge_after_error(st)
+        tot_ctx += n
+        ctx.tick(n, (st.name, "after_error"))
+        for c, kind, seq, what in v[:2]:
+            ctx.violation(c, {"kind": "after_error", "stage": st.name, "tier": tier}, "same bytes as on a fresh object", what)
+    for sa, sb in variant_pairs():
+        v, n = judge_two_instances(sa, sb)
+        tot_ctx += n
+        ctx.tick(n * sa.k, (sa.name, "two_instances"))
+        for c, kind, order, what in v[:2]:
+            ctx.violation(c, {"kind": "two_instances", "stage": sa.name, "order": order}, "independent", what)
     ctx.states = tot_states
     ctx.transitions = tot_ctx
     ctx.traces = tot_ctx
@@ -518,6 +626,18 @@ def run(ctx):
 def replay(case):
     if case["kind"] == "buffer":
         return [(c, "identical", f"{s}") for c, n_, s in judge_buffer(case["N"], [1, 8191, 8192, 8193])]
+    if case["kind"] == "after_error":
+        out = []
+        for s_ in stages(case.get("tier", "quick")):
+            if s_.name == case["stage"]:
+                out += [(c, "same bytes as on a fresh object", what) for c, kind, seq, what in judge_after_error(s_)[0]]
+        return out
+    if case["kind"] == "two_instances":
+        out = []
+        for sa, sb in variant_pairs():
+            if sa.name == case["stage"]:
+                out += [(c, "independent", what) for c, kind, order, what in judge_two_instances(sa, sb)[0]]
+        return out
     st = [s for s in stages(case.get("tier", "quick")) if s.name == case["stage"]]
     out = []
     for s in st:
